@@ -172,6 +172,12 @@ pub const DLT_SERIAL_HEADER_SIZE: usize = 4; // just the pattern
 /// maximum size of a DLT message with a storage header:
 pub const DLT_MAX_STORAGE_MSG_SIZE: usize = DLT_STORAGE_HEADER_SIZE + u16::MAX as usize;
 
+/// minimum amount of data a reader needs to provide to the parser (unless at the end of the data):
+/// the maximum size of a msg plus the 4 bytes of the storage/serial header pattern of the next msg.
+/// Those are used by the heuristic to detect corrupt msgs. If less would be provided the result of
+/// the heuristic (and by that the msgs parsed) would depend on how the data was chunked/buffered.
+pub const DLT_MIN_PARSER_LOOKAHEAD_SIZE: usize = DLT_MAX_STORAGE_MSG_SIZE + 4;
+
 pub const DLT_MIN_STD_HEADER_SIZE: usize = 4;
 pub const MIN_DLT_MSG_SIZE: usize = DLT_STORAGE_HEADER_SIZE + DLT_MIN_STD_HEADER_SIZE;
 pub const DLT_EXT_HEADER_SIZE: usize = 10;
